@@ -216,7 +216,8 @@ fn room_after0(spec: &WSpec, written: usize, limit_override: Option<(usize, usiz
     }
 }
 
-pub fn run_case(o: &mut Obs, spec: &WSpec, ops: &[WOp], path: usize, use_writer: Option<usize>, case: &str) {
+pub fn run_case(o: &mut Obs, spec: &WSpec, ops: &[WOp], path: usize, use_writer: Option<usize>, case: &str) -> u64 {
+    let mut dg: u64 = 0;
     let rows = prows();
     let mut leaves = Vec::new();
     let mut root = build(spec, &mut leaves);
@@ -226,7 +227,7 @@ pub fn run_case(o: &mut Obs, spec: &WSpec, ops: &[WOp], path: usize, use_writer:
     o.inc("cases");
     let mut ended_by_panic = false;
     if !step_laws(o, spec, &mut root, room_after(spec, 0, None), case, "construction") {
-        return;
+        return crate::rng::fnv_u64(dg, 9);
     }
     for op in ops {
         o.inc("steps");
@@ -287,7 +288,7 @@ pub fn run_case(o: &mut Obs, spec: &WSpec, ops: &[WOp], path: usize, use_writer:
                 o.inc("uninit_ooc_calls");
                 if r.is_ok() {
                     viol(o, spec, "uninit-slice-ooc-accepted", case, &format!("out-of-range UninitSlice access variant {} on a chunk of {n} bytes did not panic", how % 5));
-                    return;
+                    return crate::rng::fnv_u64(dg, 3);
                 }
                 (Vec::new(), Ok(()))
             }
@@ -322,7 +323,7 @@ pub fn run_case(o: &mut Obs, spec: &WSpec, ops: &[WOp], path: usize, use_writer:
                 if row.width == 0 && *nb > 8 {
                     if r.is_ok() {
                         viol(o, spec, &format!("{}:nbytes>8-accepted", row.name), case, &format!("{}(.., {nb}) did not panic", row.name));
-                        return;
+                        return crate::rng::fnv_u64(dg, 3);
                     }
                     // rejected as it must be; nothing may have been written
                     (Vec::new(), Ok(()))
@@ -344,15 +345,16 @@ pub fn run_case(o: &mut Obs, spec: &WSpec, ops: &[WOp], path: usize, use_writer:
             other => format!("{other:?}").chars().take(60).collect(),
         };
         o.cell(format!("wr|{}|{}|{}|p{path}", spec.shape().split('(').next().unwrap_or(""), opn.split('(').next().unwrap_or(""), if !fits { "nofit" } else if room.map(|r| bytes.len() == r).unwrap_or(false) { "exact" } else { "fits" }));
+        dg = crate::rng::fnv_u64(dg, (fits as u64) * 2 + r.is_ok() as u64 + 16);
         match (fits, r) {
             (true, Ok(())) => written.extend_from_slice(&bytes),
             (true, Err(e)) => {
                 viol(o, spec, &format!("panic-though-fits:{}", opn.split('(').next().unwrap_or("")), case, &format!("{opn} of {} bytes with room {:?} panicked: {e}", bytes.len(), room));
-                return;
+                return crate::rng::fnv_u64(dg, 3);
             }
             (false, Ok(())) => {
                 viol(o, spec, &format!("no-panic-overflow:{}", opn.split('(').next().unwrap_or("")), case, &format!("{opn} of {} bytes with room {:?} did not panic", bytes.len(), room));
-                return;
+                return crate::rng::fnv_u64(dg, 3);
             }
             (false, Err(_)) => {
                 o.inc("expected_panics");
@@ -361,7 +363,7 @@ pub fn run_case(o: &mut Obs, spec: &WSpec, ops: &[WOp], path: usize, use_writer:
             }
         }
         if !step_laws(o, spec, &mut root, room_after(spec, written.len(), lim_over), case, &opn) {
-            return;
+            return crate::rng::fnv_u64(dg, 3);
         }
     }
     // optional io::Write on top (C12)
@@ -377,18 +379,18 @@ pub fn run_case(o: &mut Obs, spec: &WSpec, ops: &[WOp], path: usize, use_writer:
             other => {
                 let dd = format!("Writer::write({k} bytes) with room {room:?} returned {other:?}, expected Ok({want}) || target={}", spec.shape());
                 o.viol("C12", "writer-write", case, &dd);
-                return;
+                return crate::rng::fnv_u64(dg, 3);
             }
         }
         if w.flush().is_err() {
             o.viol("C12", "writer-flush", case, "Writer::flush failed");
-            return;
+            return crate::rng::fnv_u64(dg, 3);
         }
         let rm = w.get_ref().remaining_mut();
         if let Some(r) = room {
             if rm != r - want {
                 o.viol("C12", "writer-get_ref", case, &format!("Writer::get_ref().remaining_mut()={rm}, expected {}", r - want));
-                return;
+                return crate::rng::fnv_u64(dg, 3);
             }
         }
         root = w.into_inner();
@@ -405,7 +407,7 @@ pub fn run_case(o: &mut Obs, spec: &WSpec, ops: &[WOp], path: usize, use_writer:
             (LeafState::Grow(c), None) => {
                 if c.len() < info.init.len() || c[..info.init.len()] != info.init[..] {
                     viol(o, spec, "initial-contents-changed", case, "bytes before the write cursor changed");
-                    return;
+                    return crate::rng::fnv_u64(dg, 3);
                 }
                 let mine = &c[info.init.len()..];
                 per_leaf.push(mine.len());
@@ -414,24 +416,24 @@ pub fn run_case(o: &mut Obs, spec: &WSpec, ops: &[WOp], path: usize, use_writer:
             (LeafState::Fixed(addr, rem), Some(a)) => {
                 if !a.guards_ok() {
                     viol(o, spec, "guard-bytes-modified", case, "bytes outside the writable region of a fixed target were modified");
-                    return;
+                    return crate::rng::fnv_u64(dg, 3);
                 }
                 let k = a.size - rem.min(&a.size);
                 if *addr != a.start + k {
                     viol(o, spec, "fixed-cursor", case, &format!("remaining window starts at +{} but {} bytes were consumed", addr.wrapping_sub(a.start), k));
-                    return;
+                    return crate::rng::fnv_u64(dg, 3);
                 }
                 let reg = a.region();
                 if !ended_by_panic && reg[k..].iter().any(|&b| b != FILL_BYTE) {
                     viol(o, spec, "wrote-beyond-cursor", case, "bytes beyond the write cursor were modified");
-                    return;
+                    return crate::rng::fnv_u64(dg, 3);
                 }
                 per_leaf.push(k);
                 got.extend_from_slice(&reg[..k]);
             }
             _ => {
                 viol(o, spec, "leaf-kind", case, "leaf state does not match its spec");
-                return;
+                return crate::rng::fnv_u64(dg, 3);
             }
         }
     }
@@ -442,14 +444,14 @@ pub fn run_case(o: &mut Obs, spec: &WSpec, ops: &[WOp], path: usize, use_writer:
         distribute(spec, written.len(), &mut want);
         if want != per_leaf {
             viol(o, spec, "chain-order", case, &format!("bytes per leaf {per_leaf:?}, expected {want:?} (first buffers must be filled first, limits respected)"));
-            return;
+            return crate::rng::fnv_u64(dg, 3);
         }
     }
     let cmp_len = if ended_by_panic { written.len().min(got.len()) } else { got.len().max(written.len()) };
     if got.len() < written.len() || got[..written.len()] != written[..] || (!ended_by_panic && got.len() != written.len()) {
         let k = got.iter().zip(&written).position(|(a, b)| a != b).unwrap_or(got.len().min(written.len()));
         viol(o, spec, "contents", case, &format!("target holds {} appended bytes, expected {} (first difference at {k}, cmp {cmp_len}); ops={:?} path={}", got.len(), written.len(), ops, PATHS[path]));
-        return;
+        return crate::rng::fnv_u64(dg, 9);
     }
     // read back with the matching getters
     let grows = super::getters::rows();
@@ -470,7 +472,7 @@ pub fn run_case(o: &mut Obs, spec: &WSpec, ops: &[WOp], path: usize, use_writer:
                 Ok(v) => v,
                 Err(e) => {
                     viol(o, spec, &format!("readback-panic:{}", row.name), case, &format!("reading back {}({v:#x}, {nb}) through {gname} panicked: {e}", row.name));
-                    return;
+                    return crate::rng::fnv_u64(dg, 3);
                 }
             };
             o.inc("readbacks");
@@ -480,7 +482,7 @@ pub fn run_case(o: &mut Obs, spec: &WSpec, ops: &[WOp], path: usize, use_writer:
             let want = super::getters::reference(&encode(low, w, End::Be), End::Be, row.ty);
             if back != want {
                 viol(o, spec, &format!("readback:{}", row.name), case, &format!("{}({v:#x}) read back through {gname} gives {back:#x}, expected {want:#x}", row.name));
-                return;
+                return crate::rng::fnv_u64(dg, 3);
             }
         }
     }
@@ -489,6 +491,7 @@ pub fn run_case(o: &mut Obs, spec: &WSpec, ops: &[WOp], path: usize, use_writer:
             a.free();
         }
     }
+    crate::rng::fnv_u64(dg, 11 + written.len() as u64)
 }
 
 pub fn writers(a: &Args, o: &mut Obs) {
@@ -587,7 +590,10 @@ pub fn writers(a: &Args, o: &mut Obs) {
         if c % 89 == 0 {
             o.sample(format!("{case}: target={} room={:?} ops={:?} path={} writer={:?}", spec.shape(), room, ops, PATHS[path], use_writer));
         }
-        run_case(o, &spec, &ops, path, use_writer, &case);
+        let h = run_case(o, &spec, &ops, path, use_writer, &case);
+        if a.flag("digest") {
+            println!("DIGEST wr {g} {h:016x}");
+        }
     }
     o.add("put_methods", nrows as u64 + 3);
 }
